@@ -362,9 +362,12 @@ def gate_case(ctx: Ctx, kind: str, bad: dict, base: dict, plugin: str, position:
             paths.append(p)
         out = os.path.join(d, "out")
         counters[f"gate:{plugin}:pos{position}:{'cli' if via_cli else 'main'}"] += 1
-        case = {"kind": kind, "plugin": plugin, "position": position, "via": "cli" if via_cli else "main"}
+        # every other case under `python -O`: the gate is not an assertion
+        optimised = (position + len(kind) + len(plugin)) % 2 == 1
+        counters["gate:python -O" if optimised else "gate:python"] += 1
+        case = {"kind": kind, "plugin": plugin, "position": position, "via": "cli" if via_cli else "main", "python -O": optimised}
         if via_cli:
-            r = gen.run_generator(plugin, out, models=paths, hashseed=0)
+            r = gen.run_generator(plugin, out, models=paths, hashseed=0, spelling="optimised" if optimised else "default")
             failed, plugin_ran = r.returncode != 0, ("Running plugin:" in r.stdout or "Plugin" in r.stdout and "completed" in r.stdout)
         else:
             code = (
@@ -384,7 +387,7 @@ def gate_case(ctx: Ctx, kind: str, bad: dict, base: dict, plugin: str, position:
                 "except BaseException as e:\n"
                 "    print('RESULT raised', len(calls), type(e).__name__)\n"
             )
-            r = subprocess.run([gen.PY, "-B", "-c", code], capture_output=True, text=True, timeout=600, cwd=REPO,
+            r = subprocess.run([gen.PY, "-B"] + (["-O"] if optimised else []) + ["-c", code], capture_output=True, text=True, timeout=600, cwd=REPO,
                                env={**os.environ, "PYTHONHASHSEED": "0", "PYTHONDONTWRITEBYTECODE": "1"})
             line = [ln for ln in r.stdout.splitlines() if ln.startswith("RESULT")]
             if not line:
@@ -394,6 +397,8 @@ def gate_case(ctx: Ctx, kind: str, bad: dict, base: dict, plugin: str, position:
         written = []
         if os.path.isdir(out):
             for root, _, files in os.walk(out):
+                if os.path.join(out, "_tests") in root:
+                    continue   # the harness copy that the check itself puts there for the rust plugin
                 written += [os.path.join(root, f) for f in files]
         if not failed:
             ctx.finding(("gate-passed", kind, plugin), f"schema-violating model ({kind}) at position {position}: generator succeeded", case)
